@@ -38,6 +38,18 @@ def main(argv=None) -> int:
             raise AnalysisError("source does not parse: " + "; ".join(prog.parse_errors))
         rep = Report(args.prop, tier, args.root)
         fn(rep, prog, tier)
+        if tier == "thorough" and os.path.abspath(args.root) == "/repo" and not os.environ.get("VERIF_NO_EVIDENCE") and not os.environ.get("VERIF_NO_SELFTEST"):
+            # both-ways self-validation of this check on scratch variants; recorded in the evidence, never part of the verdict
+            from vlib import selftest
+            try:
+                rep.selftest = selftest.for_property(args.prop)
+                st = rep.selftest
+                print(f"[selftest] {st['fired_as_expected']}/{st['must_fire']} must-fire variants reported, {st['silent_as_expected']}/{st['must_stay_silent']} "
+                      f"must-stay-silent variants silent, {st['stale_variants']} stale, {len(st['unexpected'])} unexpected; {st['wall_s']}s")
+                for u in st["unexpected"]:
+                    print(f"[selftest] unexpected: {u['id']}: {u['verdict']}"[:300])
+            except Exception as e:  # noqa: BLE001
+                rep.selftest = {"error": repr(e)}
         return rep.finish()
     except AnalysisError as e:
         print(f"ANALYSIS-ERROR: {args.prop}: {e}")
